@@ -98,7 +98,6 @@ void harness_timeout_value(void)
 	t.type = (int)nd_range(0, 7) == 3 ? cJSON_Number : (1 << nd_range(0, 7));
 	t.valuedouble = nd_double();
 	uint64_t dflt = nd_u64();
-	__CPROVER_assume(dflt > 0);
 	__CPROVER_assume(!(t.valuedouble != t.valuedouble));        /* cJSON's number parser cannot produce NaN */
 	uint64_t ns = get_timeout_in_nsec(0, 0, present ? &t : 0, &resp, dflt);
 	if (!present) { CHECK(ns == dflt && resp == 0, "C14.absent_timeout_uses_default"); REACH("default_used"); }
